@@ -72,6 +72,8 @@ MUST = [
     "[<100]0;0.0", '0.00"x"', 'x" y="z', "", "a\tb", "a\nb", "a\rb", "a\vb",
     # strings that are not in Unicode normal form C / KC (decomposed accent, OHM and ANGSTROM signs, Hangul jamo, a ligature): stored as given
     "e\u0301 \u2126\u212b \u1100\u1161 \ufb01\u00b5",
+    # strings whose FIRST character means something to some reader of such a field (theme-font reference, vertical font, option, hidden file, id)
+    "+mn-lt", "@Arial Unicode MS", "-x", ".hidden", "#ref!",
 ]
 ATOMS = [
     "&", "<", ">", '"', "'", "]]>", "&amp;", "&lt;", "&gt;", "&quot;", "&apos;", "&#65;", "&#x41;", "&#0;", "&nosuch;", "&a", "AT&T;",
